@@ -53,7 +53,21 @@ func powOK(h *wire.BlockHeader) bool {
 
 // mine builds a header on prev at the given height; good selects whether its
 // proof of work is to be valid.
-func mine(r *rand.Rand, prev chainhash.Hash, height uint32, good bool) wire.BlockHeader {
+// A header is fully valid when it passes btcd's CheckBlockHeaderSanity (proof
+// of work for its own bits) AND CheckBlockHeaderContext (bits = the expected
+// difficulty, timestamp after the median of its ancestors).  The generator's
+// chains use the rule timestamp(height) = genesis + height*10min, so a header is
+// contextually valid iff its bits are the pow limit and its timestamp is not
+// before genesis.
+func fullyValid(h *wire.BlockHeader) bool {
+	return powOK(h) && h.Bits == params.PowLimitBits &&
+		!h.Timestamp.Before(params.GenesisBlock.Header.Timestamp)
+}
+
+// mine builds a header on prev at the given height.  defect: "" (valid), "pow"
+// (hash above target, link intact), "bits" (valid proof of work for a WRONG
+// difficulty), "time" (timestamp before the median of its ancestors).
+func mineD(r *rand.Rand, prev chainhash.Hash, height uint32, defect string) wire.BlockHeader {
 	var mr chainhash.Hash
 	r.Read(mr[:])
 	h := wire.BlockHeader{
@@ -63,10 +77,23 @@ func mine(r *rand.Rand, prev chainhash.Hash, height uint32, good bool) wire.Bloc
 		Timestamp:  params.GenesisBlock.Header.Timestamp.Add(time.Duration(height) * 10 * time.Minute),
 		Bits:       params.PowLimitBits,
 	}
-	for powOK(&h) != good {
+	switch defect {
+	case "bits":
+		h.Bits = 0x203fffff // half the pow limit's target: in range, but not the expected difficulty
+	case "time":
+		h.Timestamp = params.GenesisBlock.Header.Timestamp.Add(-time.Hour)
+	}
+	for powOK(&h) != (defect != "pow") {
 		h.Nonce++
 	}
 	return h
+}
+
+func mine(r *rand.Rand, prev chainhash.Hash, height uint32, good bool) wire.BlockHeader {
+	if good {
+		return mineD(r, prev, height, "")
+	}
+	return mineD(r, prev, height, "pow")
 }
 
 func randHash(r *rand.Rand) chainhash.Hash {
@@ -95,7 +122,7 @@ type names struct{ b, f *intern }
 
 func (n *names) blk(h *wire.BlockHeader) string {
 	v := 0
-	if powOK(h) {
+	if fullyValid(h) {
 		v = 1
 	}
 	// the header's own id first, so that ids follow the order of appearance
@@ -427,7 +454,39 @@ func optStr(k int) string {
 	return fmt.Sprint(k)
 }
 
-func oneCase(t *tr.W, r *rand.Rand, forceKind string) {
+// directive pins the choices of a directed corpus case (nil: random case).
+type directive struct {
+	name   string
+	bTip   int
+	ahead  int    // block store ahead of the filter store by this many
+	kind   string // file kind
+	pos    string // "first-new": corruption exactly at min(tips)+1
+	bs     int
+	length int // headers above the lower tip
+}
+
+// corpus: directed cases run at the start of every run.  "first new header bad
+// PoW": the invalid header (link intact, valid headers building on it) is exactly
+// the first header the import would write.
+var corpus = func() []directive {
+	var out []directive
+	for _, kind := range []string{"badpow", "badbits", "badtime", "badprev"} {
+		for _, bTip := range []int{0, 3} {
+			for _, bs := range []int{1, 2, 3, 1000} {
+				out = append(out, directive{name: "first-new-" + kind, bTip: bTip, kind: kind, pos: "first-new", bs: bs, length: 4})
+			}
+		}
+		out = append(out, directive{name: "first-new-" + kind + "-block-ahead", bTip: 4, ahead: 2, kind: kind, pos: "first-new", bs: 2, length: 5})
+	}
+	return out
+}()
+
+func oneCase(t *tr.W, r *rand.Rand, forceKind string) { oneCaseD(t, r, forceKind, nil) }
+
+func oneCaseD(t *tr.W, r *rand.Rand, forceKind string, dir *directive) {
+	if dir != nil {
+		forceKind = dir.kind
+	}
 	// "focus" cases: an honest file from height 0 that extends level stores in
 	// several batches, with a write failure injected into one of them
 	focus := forceKind == "" && r.Intn(7) == 0
@@ -449,7 +508,16 @@ func oneCase(t *tr.W, r *rand.Rand, forceKind string) {
 	if focus {
 		preKind = 9
 	}
+	if dir != nil {
+		bTip, fTip, preKind = dir.bTip, dir.bTip, 9
+		if dir.ahead > 0 {
+			fTip = bTip - dir.ahead
+			preKind = 99
+			t.Hit("pre.block-ahead")
+		}
+	}
 	switch preKind {
+	case 99: // directed: heights already chosen
 	case 0, 1: // block store ahead
 		d := 1 + r.Intn(3)
 		if bTip >= d {
@@ -510,7 +578,7 @@ func oneCase(t *tr.W, r *rand.Rand, forceKind string) {
 	// ---- the file
 	kind := forceKind
 	if kind == "" {
-		kind = pick(r, "honest", "honest", "honest", "honest", "honest", "badprev", "badpow", "fork", "fmismatch",
+		kind = pick(r, "honest", "honest", "honest", "honest", "honest", "badprev", "badpow", "badbits", "badtime", "fork", "fmismatch",
 			"net", "net2", "type", "startmis", "countmis", "trunc", "empty", "gap", "midfilter")
 	}
 	var s int
@@ -527,14 +595,17 @@ func oneCase(t *tr.W, r *rand.Rand, forceKind string) {
 	if kind == "gap" {
 		s = eff + 2 + r.Intn(3)
 	}
-	if focus {
+	if focus || dir != nil {
 		s = 0
 	}
 	length := pick(r, 1, 2, 3, 4, 5, 7, 9, 12)
 	if focus {
 		length = eff + 1 + pick(r, 2, 3, 4, 5, 7)
 	}
-	if r.Intn(3) > 0 && s+length-1 <= eff {
+	if dir != nil {
+		length = eff + 1 + dir.length
+	}
+	if dir == nil && r.Intn(3) > 0 && s+length-1 <= eff {
 		length = eff - s + 1 + 1 + r.Intn(6) // make it extend the stores most of the time
 	}
 	e := s + length - 1
@@ -551,35 +622,58 @@ func oneCase(t *tr.W, r *rand.Rand, forceKind string) {
 	for len(ffile) <= e {
 		ffile = append(ffile, randHash(r))
 	}
-	remine := func(from int, prev chainhash.Hash, good bool) {
-		// replace heights from.. by fresh headers on prev
+	remine := func(from int, prev chainhash.Hash, defect string) {
+		// replace heights from.. by fresh headers on prev; only the first carries the defect
 		for h := from; h <= e; h++ {
-			fileChain[h] = mine(r, prev, uint32(h), good || h != from)
+			d := ""
+			if h == from {
+				d = defect
+			}
+			fileChain[h] = mineD(r, prev, uint32(h), d)
 			prev = fileChain[h].BlockHash()
 		}
 	}
 	spec := &fileSpec{bstart: uint32(s), fstart: uint32(s)}
 	switch kind {
-	case "badprev":
+	case "badprev", "badpow", "badbits", "badtime":
+		// one invalid header, valid headers building on it.  Every position of
+		// the file is eligible; 2 in 5 cases (and the directed ones) put it
+		// exactly on the first header the import would write: min(tips)+1.
 		p := s + r.Intn(length)
+		if firstNew := eff + 1; firstNew >= s && firstNew <= e &&
+			((dir != nil && dir.pos == "first-new") || r.Intn(5) < 2) {
+
+			p = firstNew
+		}
 		if p == 0 {
 			p = min(1, e)
 		}
-		if p > 0 {
-			remine(p, randHash(r), true)
+		defect := map[string]string{"badprev": "", "badpow": "pow", "badbits": "bits", "badtime": "time"}[kind]
+		if p == s && (defect == "bits" || defect == "time") {
+			// the file's first header is only ever sanity-checked (never in
+			// context); the model's single `valid` flag stands for both, so
+			// context-only defects are not placed on file index 0
+			defect = "pow"
 		}
-	case "badpow":
-		p := s + r.Intn(length)
-		if p == 0 {
-			p = min(1, e)
-		}
 		if p > 0 {
-			remine(p, fileChain[p-1].BlockHash(), false)
+			prev := fileChain[p-1].BlockHash()
+			if kind == "badprev" {
+				prev = randHash(r)
+			}
+			remine(p, prev, defect)
+			switch {
+			case p == eff+1:
+				t.Hit("corrupt-at.first-new")
+			case p <= eff:
+				t.Hit("corrupt-at.overlap")
+			default:
+				t.Hit("corrupt-at.later")
+			}
 		}
 	case "fork":
 		p := 1 + r.Intn(max(1, min(e, bTip)))
 		if p <= e {
-			remine(p, fileChain[p-1].BlockHash(), true)
+			remine(p, fileChain[p-1].BlockHash(), "")
 		}
 	case "fmismatch":
 		p := s + r.Intn(length)
@@ -642,6 +736,10 @@ func oneCase(t *tr.W, r *rand.Rand, forceKind string) {
 		failF = r.Intn(3)
 	case 1:
 		failB = r.Intn(3)
+	}
+	if dir != nil {
+		bs, failB, failF = dir.bs, -1, -1
+		t.Hit("directed." + dir.name)
 	}
 	if focus {
 		bs = pick(r, 1, 2, 3)
@@ -711,6 +809,9 @@ func Run(t *tr.W, thorough bool) {
 	if os.Getenv("VERIF_SEARCH") == "1" {
 		// bin/check's search for a failing input after a broken tie: bounded (each case costs ~60 ms of disk I/O)
 		n = 1500
+	}
+	for i := range corpus {
+		oneCaseD(t, r, "", &corpus[i])
 	}
 	for i := 0; i < n; i++ {
 		oneCase(t, r, "")
